@@ -113,3 +113,17 @@ def check(ctx):
         e = dial.site_expr(s)
         ok = any(c for a in e[2] for c in mir.calls_in(a, r"DialOpts::connection_id$"))
         ctx.ob("pool-id-origin", "add_outgoing", ok, s.loc(), "id passed to add_outgoing comes from DialOpts::connection_id()")
+
+
+MUTANTS = [
+    {"name": "load+store instead of fetch_add", "file": "swarm/src/connection.rs",
+     "find": "Self(NEXT_CONNECTION_ID.fetch_add(1, Ordering::SeqCst))",
+     "replace": "{ let v = NEXT_CONNECTION_ID.load(Ordering::SeqCst); NEXT_CONNECTION_ID.store(v + 1, Ordering::SeqCst); Self(v) }",
+     "expect": r".", "why": "two threads can read the same value: ids repeat under concurrency only"},
+    {"name": "fetch_add(0)", "file": "swarm/src/connection.rs",
+     "find": "NEXT_CONNECTION_ID.fetch_add(1, Ordering::SeqCst)", "replace": "NEXT_CONNECTION_ID.fetch_add(0, Ordering::SeqCst)",
+     "expect": r".", "why": "counter never advances"},
+    {"name": "id masked to 16 bits", "file": "swarm/src/connection.rs",
+     "find": "Self(NEXT_CONNECTION_ID.fetch_add(1, Ordering::SeqCst))", "replace": "Self(NEXT_CONNECTION_ID.fetch_add(1, Ordering::SeqCst) & 0xffff)",
+     "expect": r".", "why": "ids wrap after 65536 allocations"},
+]
